@@ -250,6 +250,60 @@ example : run init [.gatherCall, .cycleStart 0, .pubCheck 0, .pubTask 0, .gather
    .restart 1, .gatherCall, .cycleStart 1, .pubCheck 1, .pubTask 1, .pubCheck 1, .restart 2, .pubTask 1] = none := by
   decide
 
+/-! ### the three places of `addCandidate`: first check, hand-off, in-task re-check; the local candidate list -/
+
+/-- The state side of "a cancelled cycle publishes nothing into the next generation": in EVERY reachable state every
+local candidate of the agent (`a.localCandidates`: started, socket open) belongs to a cycle whose context is NOT
+cancelled, carries the agent's CURRENT ufrag — which is that cycle's own — and was announced with exactly this
+tag.  So nothing that a cancelled cycle gathered is alive in the agent, whatever `Run`'s `select` chose. -/
+theorem C11_local_candidates_of_live_cycle (s : State) (h : Reachable s) (c t : Nat) (hl : (c, t) ∈ s.locals) :
+    ∃ cy, s.cycles[c]? = some cy ∧ cy.cancelled = false ∧ t = cy.ufrag ∧ t = s.ufrag
+      ∧ Pub.cand c t ∈ s.published := by
+  have hi := inv_reachable h
+  obtain ⟨cy, hget, hcan, hu, hp⟩ := hi.locals_live (c, t) hl
+  exact ⟨cy, hget, hcan, hu.trans (hi.live_ufrag c cy hget hcan).symm, hu, hp⟩
+
+/-- Once a cycle's context is cancelled, in every continuation (any choice of `Run`'s `select`, any number of calls
+that had passed the first check before the cancellation) the agent holds no local candidate of that cycle:
+those it had were deleted by whatever cancelled it, and no new one is started. -/
+theorem C11_cancelled_cycle_leaves_no_local_candidate (s : State) (h : Reachable s) (i : Nat) (cy : Cycle)
+    (hget : s.cycles[i]? = some cy) (hc : cy.cancelled = true) :
+    ∀ (as : List Action) (s' : State), run s as = some s' → ∀ t, (i, t) ∉ s'.locals := by
+  intro as s' hr t hmem
+  obtain ⟨cy', _, hget', hc', _, _⟩ := silent_run as hget hc hr
+  have hi' : Inv s' := inv_run as (inv_reachable h) hr
+  obtain ⟨y, hy, hyc, _, _⟩ := hi'.locals_live (i, t) hmem
+  have hy' : s'.cycles[i]? = some y := hy
+  rw [hget'] at hy'; cases hy'
+  rw [hc'] at hyc; cases hyc
+
+/-- The hand-off of a call whose cycle was cancelled after the first check (`pubRefuse`: `select` took
+`l.tasks <- task` although `ctx.Done()` was ready, the task's own re-check failed) and `Run` returning the
+context's error (`pubAbort`) are the same transition: the outcome does not depend on which ready case `select`
+takes.  (Both are enabled exactly for a call in flight of a cancelled cycle while the loop is open.) -/
+theorem C11_handoff_of_cancelled_cycle_is_refused (s : State) (c : Nat) (cy : Cycle) (hget : s.cycles[c]? = some cy)
+    (hpc : cy.pc = .gathering) (hin : 0 < cy.checked) (hc : cy.cancelled = true) (hcl : s.closed = false) :
+    step s (.pubTask c) = none ∧ step s (.pubSkip c) = none
+    ∧ step s (.pubRefuse c) = step s (.pubAbort c)
+    ∧ ∃ s', step s (.pubRefuse c) = some s' ∧ s'.published = s.published ∧ s'.locals = s.locals
+        ∧ s'.ufrag = s.ufrag ∧ s'.gstate = s.gstate := by
+  simp [step, hget, hpc, hin, hc, hcl]
+
+/-- non-vacuity: candidate of cycle 0 is listed; a second call passes the first check; `Restart` empties the list
+and cancels the cycle; the hand-off of the second call is refused; the third cycle's candidate is listed alone,
+with the new ufrag. -/
+example : (run init [.gatherCall, .cycleStart 0, .pubCheck 0, .pubTask 0, .pubCheck 0]).map (·.locals) = some [(0, 0)] := by
+  decide
+example : (run init [.gatherCall, .cycleStart 0, .pubCheck 0, .pubTask 0, .pubCheck 0, .restart 1, .pubRefuse 0,
+    .gatherCall, .cycleStart 1, .pubCheck 1, .pubTask 1]).map (fun s => (s.locals, s.published)) =
+    some ([(1, 1)], [Pub.cand 0 0, Pub.cand 1 1]) := by decide
+/-- … `pubRefuse` is not a way around the first check or the loop: it needs a call in flight, a cancelled context
+and an open loop. -/
+example : run init [.gatherCall, .cycleStart 0, .pubCheck 0, .pubRefuse 0] = none := by decide
+example : run init [.gatherCall, .cycleStart 0, .restart 1, .pubCheck 0] = none := by decide
+example : run init [.gatherCall, .cycleStart 0, .pubCheck 0, .close, .pubRefuse 0] = none := by decide
+example : (run init [.gatherCall, .cycleStart 0, .pubCheck 0, .close, .pubAbort 0]).map (·.published) = some [] := by decide
+
 end Gather
 
 end IceProps.C11
